@@ -50,7 +50,7 @@ Check(c) ==
     \* properties BY TLC; what is outside is skipped, never judged
     IF c.rand /\ ~InScope(P, L0) THEN "skip:OutOfScope"
     ELSE IF c.outcome # "ok" THEN "rej:NoError"
-    ELSE IF ~ranged /\ c.stream # Encode(L0) THEN "rej:C10_StreamIsEncode"
+    ELSE IF ~ranged /\ ~c.nostream /\ c.stream # Encode(L0) THEN "rej:C10_StreamIsEncode"
     ELSE IF ranged /\ ~StreamWellFormed(c.stream) THEN "rej:C10_WellFormed"
     ELSE IF ranged /\ ~AllowedTagging(L0, Decode(c.stream), c.range[1], c.range[2]) THEN "rej:C18_Tagging"
     ELSE IF ~(Aligned(c.all) /\ Aligned(c.first)) THEN "rej:C07_Aligned"
